@@ -1,4 +1,5 @@
 import Verif.Props.C01
+import Verif.Props.C01Run
 import Verif.Facts.CpuCodeStep
 /-
   C01 for the code itself.  `Facts.codeStep` runs, below the opcode fetch, the Lean translation of the
@@ -42,6 +43,16 @@ theorem C01_code_brk (model : CpuModel) (r : Regs) :
 theorem C01_code_is_model (model : CpuModel) (h : H) :
     CpuCode.evalS (Gen.handlerS model h) = Impl.handler Generated.consts model h :=
   CpuCode.code_handler model h
+
+/-- runs: on every plain bus (every memory model), from every machine state, for every number of instructions, while the
+    executed path is exactly specified, the run of the TRANSLATED code and the run of the specification's own
+    fetch-decode-execute loop stop the same way with the same registers and the same memory -/
+theorem C01_code_run {σ : Type} (model : CpuModel) (bus : Bus σ) (hb : Verif.PlainBus bus) (n : Nat) (m : Machine σ)
+    (hx : Verif.Proofs.RunExact model bus n m.regs m.mem) :
+    (codeRunLoop model bus n m).1 = (Verif.Proofs.specLoop model bus n m.regs m.mem).1 ∧
+    (codeRunLoop model bus n m).2.regs = (Verif.Proofs.specLoop model bus n m.regs m.mem).2.1 ∧
+    (codeRunLoop model bus n m).2.mem = (Verif.Proofs.specLoop model bus n m.regs m.mem).2.2 := by
+  rw [codeRunLoop_eq]; exact C01_run model bus hb n m hx
 
 -- non-vacuity: the translated ADC #imm is a program that loads the operand from PC (not a constant)
 example : ∃ k, CpuCode.evalS (Gen.addImmediate .m6502) ⟨0x0800, 0xFF, 1, 0, 0, 0⟩ = Prog.load 0x0800 k :=
